@@ -334,7 +334,47 @@ def check(ctx):
         stores = [n for n in walk_local(lst.node) if isinstance(n, ast.Name) and n.id in (idv, msgv) and isinstance(n.ctx, ast.Store)]
         ctx.ob("C14-R4", lst.fq, "id and message are not reassigned after the receive", len(stores) == 2, node=lst.node, construct="(id, message) single assignment")
         pops = [c for c in calls_in(lst.node) if isinstance(c.func, ast.Attribute) and c.func.attr == "pop" and dotted(c.func.value) == TABLE]
-        ctx.floor("C14-R4", "sites taking a future out of the pending table", len(pops), 1)
+        # the same in two steps: a non-removing lookup (get / subscript) of the received id, the removal written separately
+        looks = [n for n in walk_local(lst.node) if isinstance(n, ast.Assign) and len(n.targets) == 1 and isinstance(n.targets[0], ast.Name) and (
+            (isinstance(n.value, ast.Call) and isinstance(n.value.func, ast.Attribute) and n.value.func.attr == "get" and dotted(n.value.func.value) == TABLE) or
+            (isinstance(n.value, ast.Subscript) and dotted(n.value.value) == TABLE))]
+        ctx.floor("C14-R4", "sites taking a future out of the pending table", len(pops) + len(looks), 1)
+        for lk in looks:
+            fv = lk.targets[0].id
+            key = lk.value.args[0] if isinstance(lk.value, ast.Call) and lk.value.args else getattr(lk.value, "slice", None)
+            ctx.ob("C14-R4", lst.fq, "the future is looked up under the id of the received frame", isinstance(key, ast.Name) and key.id == idv, node=lk, construct="lookup key is the received id")
+            srs = [c for c in calls_in(lst.node) if isinstance(c.func, ast.Attribute) and c.func.attr == "set_result" and isinstance(c.func.value, ast.Name) and c.func.value.id == fv]
+            ok = len(srs) == 1 and len(srs[0].args) == 1 and isinstance(srs[0].args[0], ast.Name) and srs[0].args[0].id == msgv and not in_loop(srs[0], lst.node)
+            ctx.ob("C14-R4", lst.fq, "that future is completed once, with the message of the same frame", ok, node=lk, construct="set_result(message of the same frame)")
+
+            class _Gone(Sem):
+                """(completed, removed) on the paths reaching here"""
+                base_exc_escapes = False
+
+                def join2(s_, a, b):
+                    return a | b
+
+                def transfer(s_, st, state):
+                    out = set()
+                    for comp, rem in state:
+                        if any(c in srs for c in calls_in(st)):
+                            comp = True
+                        if (isinstance(st, ast.Delete) and any(isinstance(t, ast.Subscript) and dotted(t.value) == TABLE and src(t.slice) == idv for t in st.targets)) or \
+                                any(isinstance(c.func, ast.Attribute) and c.func.attr == "pop" and dotted(c.func.value) == TABLE and c.args and src(c.args[0]) == idv for c in calls_in(st)):
+                            rem = True
+                        out.add((comp, rem))
+                    return frozenset(out)
+
+                def exc_state(s_, st, state):
+                    # a `raise` statement has no effect of its own; other raising statements may or may not have had theirs
+                    return state if isinstance(st, ast.Raise) else state | s_.transfer(st, state)
+            gx = _Gone().run(lst.node, frozenset([(False, False)]))
+            stuck = [x for x in gx if any(comp and not rem for comp, rem in x.state)]
+            ctx.ob("C14-R4", lst.fq, "a future that was completed has left the table on every exit of the listener (exception exits included)", not stuck, node=(stuck[0].node if stuck else lk),
+                   construct="completed future left in the pending table",
+                   msg=f"the listener can leave ({stuck[0].kind if stuck else ''} at line {stuck[0].line if stuck else 0}) with the answered call still in the table: the clean-up that fails the pending calls then hits an "
+                       "already completed future (InvalidStateError), stops, and every call registered later waits forever",
+                   path=(f"entry {lst.fq} -> set_result -> {stuck[0].kind}@{stuck[0].line}" if stuck else None))
         for pcall in pops:
             ok = len(pcall.args) >= 1 and isinstance(pcall.args[0], ast.Name) and pcall.args[0].id == idv
             ctx.ob("C14-R4", lst.fq, "the future is taken from the table under the id of the received frame", ok, node=pcall, construct="pop key is the received id",
